@@ -89,6 +89,8 @@ func (e *Enc) allocRef(st *State, prefix string, reach Term) (Term, *State) {
 	al := e.Get(st, "$alloc")
 	e.sc.Assert(and("(not (= "+r+" 0))", "(not (select "+al+" "+r+"))"))
 	st = e.Set(st, "$alloc", app("store", al, r, "true"))
+	st = e.Set(st, "$priv", app("store", e.Get(st, "$priv"), r, "true"))
+	e.allocRefs = append(e.allocRefs, r)
 	return r, st
 }
 
@@ -131,7 +133,7 @@ func allocEscapes(a *ssa.Alloc) bool {
 							if y.Call.Value == x {
 								continue
 							}
-							if fn, ok := y.Call.Value.(*ssa.Function); ok && fn.Pkg != nil && strings.HasPrefix(fn.Pkg.Pkg.Path(), modulePath) {
+							if fn, ok := y.Call.Value.(*ssa.Function); ok && strings.HasPrefix(fnPkgPath(fn), modulePath) {
 								continue
 							}
 							return true
@@ -248,6 +250,9 @@ func (e *Enc) instr(fr *Frame, in ssa.Instruction, st *State, rb Term) (*State, 
 			e.set(fr, x, nv)
 			e.assumeTypeInv(fr.vals[x], "true")
 			e.assumeAllocated(fr.vals[x], st)
+			if a.Ref != "" {
+				e.assumeNotPrivate(fr.vals[x], st)
+			}
 		case token.NOT:
 			e.set(fr, x, Val{T: not(v.T)})
 		case token.SUB:
@@ -275,6 +280,9 @@ func (e *Enc) instr(fr *Frame, in ssa.Instruction, st *State, rb Term) (*State, 
 		}
 		e.checkStoreFrame(fr, a, st, rb, x.Pos())
 		// closures stored into locals keep their static identity via the frame map
+		if a.Ref != "" {
+			st = e.Leak(st, v) // a reference stored into the heap is no longer private
+		}
 		st = e.Store(st, a, e.coerce(v, a.Typ))
 		if v.Clo != nil && a.Ref == "" && len(a.Path) == 0 {
 			e.cloStore(fr, a.Comp, v.Clo)
@@ -381,6 +389,7 @@ func (e *Enc) instr(fr *Frame, in ssa.Instruction, st *State, rb Term) (*State, 
 		e.safety(fr, "safety.mapnil", rb, "(not (= "+m.T+" 0))", x.Pos())
 		e.checkMapFrame(fr, m, st, rb, x.Pos())
 		kt := e.coerce(k, mt.Key())
+		st = e.Leak(st, k, v)
 		dd := e.Get(st, d)
 		st = e.Set(st, d, app("store", dd, m.T, app("store", app("select", dd, m.T), kt, "true")))
 		vh := e.Get(st, vv)
@@ -441,6 +450,12 @@ func (e *Enc) instr(fr *Frame, in ssa.Instruction, st *State, rb Term) (*State, 
 		return st, rb
 	case *ssa.Go:
 		e.unsupported(fr, "go statement")
+		for _, a := range x.Call.Args {
+			st = e.Leak(st, e.value(fr, a))
+		}
+		if !x.Call.IsInvoke() {
+			st = e.Leak(st, e.value(fr, x.Call.Value))
+		}
 		return e.Havoc(st, e.modAllHeap()), rb
 	case *ssa.Send, *ssa.Select:
 		e.unsupported(fr, "channel operation")
@@ -822,4 +837,19 @@ func (e *Enc) checkMapFrame(fr *Frame, m Val, st *State, rb Term, pos token.Pos)
 		return
 	}
 	e.frameChk(fr, "map update", m.T, st, rb, pos)
+}
+
+// fnPkgPath: package path of a function, looking through generic instantiation and closures.
+func fnPkgPath(fn *ssa.Function) string {
+	for fn != nil {
+		if fn.Pkg != nil {
+			return fn.Pkg.Pkg.Path()
+		}
+		if o := fn.Origin(); o != nil && o != fn {
+			fn = o
+			continue
+		}
+		fn = fn.Parent()
+	}
+	return ""
 }
